@@ -6,11 +6,11 @@ From ClapModel Require Import Base.Bytes Base.Utf8 Base.Machine.
 From ClapModel Require Import Parse.Cmd Parse.Build Parse.Valid Parse.Matcher Parse.Errors Parse.Parser.
 From ClapModel Require Import Value.PossibleValues.
 From ClapModel Require Import Derive.DeriveModel Derive.DeriveProofs.
-From ClapModel Require Import ParseProofs.Actions ParseProofs.ActionsLoop ParseProofs.Unparse ParseProofs.UnparseTop ParseProofs.UnparseTree.
+From ClapModel Require Import ParseProofs.Actions ParseProofs.ActionsLoop ParseProofs.Unparse ParseProofs.UnparseTop ParseProofs.UnparseTrail ParseProofs.UnparseTree.
 From ClapModel Require Import Derive.DeriveCmd Derive.DeriveArgs Derive.DeriveParse Derive.DeriveUpdate Derive.DeriveAccept Derive.DeriveParseEx.
 From ClapModel Require Import Parse.Validator ParseProofs.Relations ParseProofs.ValidateTotal Derive.DerivePost Derive.DerivePostEx.
 From ClapModel Require Import ParseProofs.Dispatch Derive.LoopInv Derive.DeriveFlat Derive.DeriveTotal Derive.DeriveTotalEx.
-From ClapModel Require Import ParseProofs.KindSound Derive.DeriveUpdateLine Derive.DeriveUpdateLineEx Derive.DeriveDec Derive.DeriveKeys.
+From ClapModel Require Import ParseProofs.KindSound Derive.DeriveUpdateLine Derive.DeriveUpdateLineEx Derive.DeriveDec Derive.DeriveKeys Derive.DerivePos.
 From Coq Require Import ZArith List.
 Import ListNotations.
 Open Scope N_scope.
@@ -641,3 +641,48 @@ Proof.
   split; [exact KeysEx.ex_valid|]. split; [exact KeysEx.ex_multi_last|exact KeysEx.ex_annot].
 Qed.
 Print Assumptions C15_generated_keys_all_nonvacuous.
+
+(** * Round 3: the round trip for POSITIONAL fields (Derive/DerivePos.v) *)
+
+(** THE VALUES AFTER [--] FIND THE POSITIONAL FIELDS IN ORDER: for a struct of positional fields ([T], [Option<T>], a last
+    [Vec<T>]) and a value in which an absent positional is followed only by absent ones, the printed values form a
+    well-formed trail of C02 ([wf_trail]) and its occurrences are one per mentioned field, carrying that field's values,
+    attached to the field's built argument (index = declaration order). *)
+Theorem C15_positional_trail : forall d bin, fields_only (d_nodes d) = true -> Forall pos_field (fields_of (d_nodes d)) ->
+  (forall l1 f l2, fields_of (d_nodes d) = l1 ++ f :: l2 -> f_ty f = TyVec -> l2 = []) ->
+  forall l l1 pc vs, fields_of (d_nodes d) = l1 ++ l -> pc = 1 + N.of_nat (length l1) -> pos_prefix l vs ->
+  wf_trail (built d bin) pc (pos_vals l vs) = true /\ trail_occs (built d bin) pc (pos_vals l vs) = pos_occs pc l vs.
+Proof. exact trail_shape. Qed.
+Print Assumptions C15_positional_trail.
+
+(** ROUND TRIP AS AN EQUALITY FOR POSITIONAL FIELDS: [derived_parse d (bin :: print d v) = PValue v] through the real parser
+    model (the printer writes [-- v1 v2 ..]: C02's [ITrail]; acceptance of every occurrence, the post-loop phases, the
+    entries of the final matches, extraction and the enum check are all proved -- no hypothesis speaks about the parser).
+    Class: every field positional without explicit action / num_args / delimiter / default / required ([pos_field]: a
+    non-bool [T], [Option<T>] or [Vec<T>]), distinct ids, a [Vec<T>] only last; value: [ok_nodes], an absent positional
+    followed only by absent ones ([pos_prefix]), value counts within [usize]. *)
+Theorem C15_roundtrip_parse_positional : forall d bin vs argv,
+  fields_only (d_nodes d) = true -> Forall pos_field (fields_of (d_nodes d)) -> NoDup (map f_id (fields_of (d_nodes d))) ->
+  vec_last (fields_of (d_nodes d)) = true ->
+  ok_nodes (d_nodes d) vs -> pos_prefix (fields_of (d_nodes d)) vs -> pos_fits (fields_of (d_nodes d)) vs ->
+  valid (with_bin (derive_cmd d) bin) = true -> print d vs = Some argv ->
+  derived_parse d (bin :: argv) = PValue vs.
+Proof. exact roundtrip_parse_positional. Qed.
+Print Assumptions C15_roundtrip_parse_positional.
+
+(** Non-vacuity: [{ p: u8, q: Option<String>, rest: Vec<String> }], [{7, Some("x"), ["a","b"]}] = [-- 7 x a b]: all
+    hypotheses hold.  [pos_prefix] is needed: [{7, None, ["a"]}] prints to [-- 7 a] and parses to [{7, Some("a"), []}]. *)
+Theorem C15_roundtrip_parse_positional_nonvacuous :
+  Forall pos_field (fields_of (d_nodes PosEx.d)) /\ NoDup (map f_id (fields_of (d_nodes PosEx.d)))
+  /\ vec_last (fields_of (d_nodes PosEx.d)) = true /\ ok_nodes (d_nodes PosEx.d) PosEx.v
+  /\ pos_prefix (fields_of (d_nodes PosEx.d)) PosEx.v /\ pos_fits (fields_of (d_nodes PosEx.d)) PosEx.v
+  /\ valid (with_bin (derive_cmd PosEx.d) b_prog) = true /\ print PosEx.d PosEx.v = Some PosEx.argv
+  /\ print PosEx.d PosEx.v2 = Some [[45;45]; [55]; [97]]
+  /\ derived_parse PosEx.d [b_prog; [45;45]; [55]; [97]] = PValue [DOne (SvInt 7%Z); DOpt (Some (SvStr [97])); DVec []]
+  /\ ~ pos_prefix (fields_of (d_nodes PosEx.d)) PosEx.v2.
+Proof.
+  split; [exact PosEx.ex_class|]. split; [exact PosEx.ex_nodup|]. split; [reflexivity|]. split; [exact PosEx.ex_ok|].
+  split; [exact PosEx.ex_prefix|]. split; [exact PosEx.ex_fits|]. split; [exact PosEx.ex_valid|]. split; [exact PosEx.ex_print|].
+  exact PosEx.ex_prefix_needed.
+Qed.
+Print Assumptions C15_roundtrip_parse_positional_nonvacuous.
